@@ -283,6 +283,43 @@ type buildCase struct {
 func genBuildCase(t *rapid.T) buildCase {
 	alpha := genAlphabet(t)
 	words := genWordSet(t, alpha, sz(12, 40), 5)
+	switch rapid.IntRange(0, 11).Draw(t, "buildshape") {
+	case 0: // many words over a tiny alphabet: hundreds of register entries, many equivalent and near-equivalent nodes
+		alpha = []byte{'a', 'b'}
+		if rapid.Bool().Draw(t, "three") {
+			alpha = []byte{'a', 'b', 'c'}
+		}
+		set := map[word]bool{}
+		n := rapid.IntRange(100, sz(400, 1200)).Draw(t, "manywords")
+		L := rapid.IntRange(7, 11).Draw(t, "L")
+		seed := rapid.Uint64().Draw(t, "wseed")
+		for i := 0; i < n; i++ {
+			h := hashPrefix(seed, []int{i})
+			l := int(h%uint64(L)) + 1
+			b := make([]byte, l)
+			for j := range b {
+				h = h*6364136223846793005 + 1442695040888963407
+				b[j] = alpha[int(h>>33)%len(alpha)]
+			}
+			set[word(b)] = true
+		}
+		words = sortedWords(set)
+	case 1: // long words with shared suffixes: unshared tails of 33+ letters
+		set := map[word]bool{}
+		tail := genWordOver(t, alpha, 4)
+		for len(tail) < rapid.SampledFrom([]int{30, 36, 45, 70}).Draw(t, "taillen") {
+			tail += genWordOver(t, alpha, 6) + "x"
+		}
+		for i := rapid.IntRange(1, 6).Draw(t, "nlong"); i > 0; i-- {
+			cut := rapid.IntRange(0, len(tail)).Draw(t, "cut")
+			set[genWordOver(t, alpha, 3)+tail[cut:]] = true
+			set[genWordOver(t, alpha, 2)+tail] = true
+		}
+		for _, w := range words {
+			set[w] = true
+		}
+		words = sortedWords(set)
+	}
 	var steps []addStep
 	bad := func() {
 		// splice an out-of-order or duplicate word
@@ -382,6 +419,31 @@ func checkBuildCase(c buildCase, rec *Rec) error {
 	}
 	if err := checkAutomaton(d2, accepted, probesFor(accepted, c.Probes)); err != nil {
 		return fmt.Errorf("New: %v", err)
+	}
+	// dawg.New on a list that is not strictly increasing must return an error (as Builder.Add does)
+	if len(list) >= 1 {
+		for _, badKind := range []string{"duplicate", "swap"} {
+			bad := make([][]byte, 0, len(list)+1)
+			k := len(list) / 2
+			switch badKind {
+			case "duplicate":
+				bad = append(append(append(bad, list[:k+1]...), list[k]), list[k+1:]...)
+			case "swap":
+				if len(list) < 2 {
+					continue
+				}
+				bad = append(bad, list...)
+				bad[k], bad[(k+1)%len(list)] = bad[(k+1)%len(list)], bad[k]
+			}
+			var berr error
+			var bd *dawg.Dawg
+			if p := try(func() { bd, berr = dawg.New(bad) }); p != nil {
+				return fmt.Errorf("New on a list with a %s panicked: %v", badKind, p)
+			}
+			if berr == nil {
+				return fmt.Errorf("New accepted a list that is not strictly increasing (%s at position %d of %q); NumberOfWords = %d", badKind, k, accepted, bd.NumberOfWords())
+			}
+		}
 	}
 	sharedPrefix, sharedSuffix := false, false
 	for i := 1; i < len(accepted); i++ {
@@ -489,10 +551,17 @@ func genSearcherSpec(t *rapid.T, alpha []byte, words []word) searcherSpec {
 		}
 	} else {
 		text = []byte(genWordOver(t, append(append([]byte{}, alpha...), 'z'), 7))
+		if len(words) > 0 && len(words[len(words)/2]) > 20 {
+			text = []byte(genWordOver(t, alpha, len(words[len(words)/2])+1))
+		}
 	}
 	text = append([]byte{}, text...)
+	blankOdds := 3
+	if len(text) > 12 {
+		blankOdds = 12 // long patterns: few blanks, anywhere (also beyond position 32)
+	}
 	for i := range text {
-		if rapid.IntRange(0, 3).Draw(t, "toblank") == 0 {
+		if rapid.IntRange(0, blankOdds).Draw(t, "toblank") == 0 {
 			text[i] = blank
 		}
 	}
@@ -504,7 +573,28 @@ func genSearchCase(t *rapid.T) searchCase {
 	if len(alpha) > 5 {
 		alpha = alpha[:5]
 	}
-	words := genWordSet(t, alpha, sz(14, 40), 5)
+	maxLen := 5
+	switch rapid.IntRange(0, 7).Draw(t, "searchshape") {
+	case 0: // wide nodes: twenty letters, so that nodes have far more than 8 links
+		alpha = []byte("abcdefghijklmnopqrst")
+	case 1: // long words: positions beyond 32 and 64
+		maxLen = rapid.SampledFrom([]int{34, 40, 70}).Draw(t, "maxlen")
+	}
+	words := genWordSet(t, alpha, sz(14, 40), maxLen)
+	if len(alpha) == 20 {
+		// make sure the root (and some second-level node) really is wide, with words below every letter
+		set := map[word]bool{}
+		for _, w := range words {
+			set[w] = true
+		}
+		for i, a := range alpha {
+			if rapid.IntRange(0, 5).Draw(t, "skipletter") != 0 {
+				set[word([]byte{a})+genWordOver(t, alpha[:3], 2)] = true
+				set[word([]byte{'a', a})+word([]byte{alpha[(i*7)%20]})] = true
+			}
+		}
+		words = sortedWords(set)
+	}
 	n := rapid.SampledFrom([]int{0, 1, 1, 1, 1, 2, 2, 3}).Draw(t, "nsearchers")
 	c := searchCase{Words: words}
 	for i := 0; i < n; i++ {
@@ -807,6 +897,23 @@ func checkGobCase(c gobCase, rec *Rec) error {
 	if err := verify("GobDecode", d2); err != nil {
 		return err
 	}
+	// GobDecode replaces the contents of its receiver: decode into an automaton that already holds other words
+	// (one containing the empty word, one that does not)
+	for _, prior := range [][]word{{"", "zebra"}, {"q", "qq", "qz"}} {
+		d4, berr := buildDawg(prior)
+		if berr != nil {
+			return berr
+		}
+		if _, eerr := d4.GobEncode(); eerr != nil { // the receiver has been encoded before it is overwritten
+			return fmt.Errorf("GobEncode of %q failed: %v", prior, eerr)
+		}
+		if p := try(func() { err = d4.GobDecode(enc) }); p != nil || err != nil {
+			return fmt.Errorf("GobDecode into a Dawg that held %q failed: %v %v", prior, p, err)
+		}
+		if err := verify(fmt.Sprintf("GobDecode into a Dawg that held %q", prior), d4); err != nil {
+			return err
+		}
+	}
 	var buf bytes.Buffer
 	if p := try(func() { err = gob.NewEncoder(&buf).Encode(d) }); p != nil || err != nil {
 		return fmt.Errorf("encoding/gob Encode failed: %v %v", p, err)
@@ -827,15 +934,35 @@ func firstN(w []word, n int) []word {
 
 func init() {
 	RegisterRapid("C12_build",
-		"rapid: a script of Builder.Add calls made from a sorted duplicate-free word list (alphabets of 1..5 letters incl. bytes 0x00/0x80/0xff, or all 256 bytes; word lengths 0..7; nil and []byte{} for the empty word; words derived from earlier ones to share prefixes/suffixes) with out-of-order and duplicate words spliced in, then Finish. Checks: Add errors exactly for words not greater than the last accepted one; NumberOfWords; Lookup = (rank,true) on members and false on prefixes, extensions, one-byte mutations and random probes; via the verif hook the reachable node count equals the number of distinct residual languages (minimal DFA), per-node word counts, ascending labels, no equivalent nodes; dawg.New agrees. Non-trivial: >= 3 words sharing a prefix and a suffix, or an accepted Add after a rejected one.",
+		"rapid: a script of Builder.Add calls made from a sorted duplicate-free word list (one case in twelve 100..400 (thorough 1200) hash-generated words over {a,b}/{a,b,c}; one in twelve words with shared suffixes of 30..70 letters; otherwise alphabets of 1..5 letters incl. bytes 0x00/0x80/0xff, or all 256 bytes; word lengths 0..7; nil and []byte{} for the empty word; words derived from earlier ones to share prefixes/suffixes) with out-of-order and duplicate words spliced in, then Finish. Checks: Add errors exactly for words not greater than the last accepted one; NumberOfWords; Lookup = (rank,true) on members and false on prefixes, extensions, one-byte mutations and random probes; via the verif hook the reachable node count equals the number of distinct residual languages (minimal DFA), per-node word counts, ascending labels, no equivalent nodes; dawg.New agrees, and dawg.New rejects the list with one duplicate / one transposition. Non-trivial: >= 3 words sharing a prefix and a suffix, or an accepted Add after a rejected one.",
 		Budget{Checks: 3000, Shards: 1}, Budget{Checks: 200000, Shards: 16}, genBuildCase, checkBuildCase)
 	RegisterEnum("C12_small_sets",
 		"enumeration: every subset of the 7 words of length <= 2 over {a,b} (128 sets, incl. the empty set and {\"\"}) and every 2- and 3-element subset of the 15 words of length <= 3; same checks as C12_build. Complete for that family.",
 		true, Budget{Shards: 1}, Budget{Shards: 1}, enumSmallWordSets, checkBuildCase)
 	RegisterRapid("C13_search",
-		"rapid: word set as in C12 x 0..3 searchers, each a pattern or an anagram built from a stored word or from random letters (incl. one letter outside the alphabet), letters turned into blanks with probability 1/4, blank byte sometimes equal to a real letter. Oracle: filter of the sorted word list with matchers written from the doc comments, paired with list index. Search must return exactly that, the same again with the same searcher objects, and leave the Dawg (node dump, Lookup, NumberOfWords) unchanged. Non-trivial: some but not all words match, or a query mixes blanks and letters.",
+		"rapid: word set as in C12 (one case in eight over twenty letters with words below nearly every letter so that nodes have 15+ links, one in eight with words of up to 34/40/70 letters) x 0..3 searchers, each a pattern or an anagram built from a stored word or from random letters (incl. one letter outside the alphabet), letters turned into blanks with probability 1/4, blank byte sometimes equal to a real letter. Oracle: filter of the sorted word list with matchers written from the doc comments, paired with list index. Search must return exactly that, the same again with the same searcher objects, and leave the Dawg (node dump, Lookup, NumberOfWords) unchanged. Non-trivial: some but not all words match, or a query mixes blanks and letters.",
 		Budget{Checks: 4000, Shards: 1}, Budget{Checks: 300000, Shards: 16}, genSearchCase, checkSearchCase)
+	RegisterEnum("C14_tiny_sets",
+		"enumeration: every subset of {\"\", a, b, ab, ba, abc} (64 sets incl. the empty set and {\"\"}) through the same round-trip checks as C14_gob_roundtrip. Complete for that family.",
+		true, Budget{Shards: 1}, Budget{Shards: 1},
+		func(yield func(gobCase) bool) {
+			base := []word{"", "a", "ab", "abc", "b", "ba"}
+			for mask := 0; mask < 1<<len(base); mask++ {
+				var ws []word
+				for i, w := range base {
+					if mask>>i&1 == 1 {
+						ws = append(ws, w)
+					}
+				}
+				if ws == nil {
+					ws = []word{}
+				}
+				if !yield(gobCase{Shape: "tiny", Words: ws, Queries: []searcherSpec{{Kind: "pattern", Text: "a?", Blank: '?'}}}) {
+					return
+				}
+			}
+		}, checkGobCase)
 	RegisterRapid("C14_gob_roundtrip",
-		"rapid: word sets aimed at the 1-byte varint boundary: a node with 1,2,126..130,200,255,256 children (optionally two such nodes), >= 128 nodes, up to 2^17 words through few nodes, random sets over all 256 bytes, and small sets. GobDecode(GobEncode(d)) and encoding/gob round trips must succeed and give the same words, ranks, NumberOfWords, node table (hook) and Search results, and re-encode to identical bytes. Non-trivial: some node has >= 128 children, or there are >= 128 nodes, or some node counts >= 128 words.",
+		"rapid: word sets aimed at the 1-byte varint boundary: a node with 1,2,126..130,200,255,256 children (optionally two such nodes), >= 128 nodes, up to 2^17 words through few nodes, random sets over all 256 bytes, and small sets. GobDecode(GobEncode(d)) and encoding/gob round trips (into a fresh Dawg and into Dawgs that already hold other words and have themselves been encoded before) must succeed and give the same words, ranks, NumberOfWords, node table (hook) and Search results, and re-encode to identical bytes. Non-trivial: some node has >= 128 children, or there are >= 128 nodes, or some node counts >= 128 words.",
 		Budget{Checks: 1000, Shards: 1}, Budget{Checks: 6000, Shards: 16}, genGobCase, checkGobCase)
 }
